@@ -150,7 +150,7 @@ fn check_bytes(bytes: &[u8], st: &mut Stats) -> Result<bool, String> {
         });
     }
     g!("k256 decode_public", <k256::ecdsa::SigningKey as EnrKeyUnambiguous>::decode_public(bytes));
-    g!("libsecp decode_public", <secp256k1::SecretKey as EnrKeyUnambiguous>::decode_public(bytes));
+    g!("libsecp decode_public", <crate::keys::LibsecpKey as EnrKeyUnambiguous>::decode_public(bytes));
     g!("ed25519 decode_public", <ed25519_dalek::SigningKey as EnrKeyUnambiguous>::decode_public(bytes));
     if let Ok((true, h, p)) = crate::refmodel::rlp::header_at(bytes) {
         if h + p <= bytes.len() {
